@@ -6,14 +6,14 @@ import os
 V = os.path.dirname(os.path.dirname(os.path.abspath(__file__)))
 INTRO = '''### 8.5 Seeded changes (independent sub-agents, property text only) and which checks catch them
 
-Seven rounds (20 + 20 + 12 + 20 + 20 + 20 + 20 changes, one per property and round). Every sub-agent got the property text, the list of relevant source files and its own scratch git
+Eight rounds (20 + 20 + 12 + 20 + 20 + 20 + 20 + 4 changes, one per property and round). Every sub-agent got the property text, the list of relevant source files and its own scratch git
 worktree of /repo, nothing from /verif; agents of later rounds were additionally told which functions the earlier changes had touched, to go elsewhere; from round 5 on, after three changes had turned out to be
 invisible in exact arithmetic, the agents were also asked for changes that show on ordinary finite data in exact real arithmetic (no reliance on rounding, absolute tolerances,
 exact zeros, NaN / Inf), and in rounds 6 - 7 for C10 / C16 / C17 / C18 / C20 to stay inside the parts of the property that are claimed (no LAPACK decompositions, archives,
 re-exported special functions). In round 7 four agents produced five changes each. Each change
 was confirmed by `tools/seed_confirm.sh` (demo passes on the unchanged tree and fails with the patch; the whole test-suite with the patch gives exactly the
 baseline lists) and evaluated with `tools/seed_eval_copy.sh` on a scratch copy of /repo; nothing was ever committed or left applied in /repo.
-`seeded/<id>[-r2|...|-r7]/` holds patch.diff, demo.py and meta.json (with the evaluation).
+`seeded/<id>[-r2|...|-r8]/` holds patch.diff, demo.py and meta.json (with the evaluation).
 
 Result: %s. What the misses had in common: the *discrete* parameters of a job (configuration-list layouts, option combinations, operand kinds, call
 histories, file-name orders) are a finite family chosen by hand, while the numeric data are symbolic; a change that needs a layout / combination outside the
